@@ -1590,6 +1590,12 @@ func HandleUploadFile(cc *hotline.ClientConn, t *hotline.Transaction) (res []hot
 		return cc.NewErrReply(t, fmt.Sprintf("Cannot accept upload because there is already a file named \"%v\".  Try choosing a different Name.", string(fileName)))
 	}
 
+	// A transfer that lost its connection may still be writing what had arrived into the partial file: the offset to
+	// resume from is only known once it has ended.
+	if hotline.UploadInProgress(fullFilePath) {
+		return cc.NewErrReply(t, fmt.Sprintf("Cannot accept upload of the file \"%v\" because a transfer of it is still in progress.  Try again in a moment.", string(fileName)))
+	}
+
 	ft := cc.NewFileTransfer(hotline.FileUpload, cc.FileRoot(), fileName, filePath, transferSize)
 
 	replyT := cc.NewReply(t, hotline.NewField(hotline.FieldRefNum, ft.RefNum[:]))
